@@ -301,3 +301,83 @@ class TokenMonitor(Monitor):
 
 def standard_monitors(plan):
     return [LaunchMonitor(plan), StateMonitor(plan), TokenMonitor(plan)]
+
+
+class IndexMonitor(Monitor):
+    """C16: xp/<name>/jobs lists exactly the jobs of the last completed plan; the backup index protects the rest."""
+
+    def __init__(self, plan):
+        self.plan = plan
+        self.last_completed = {}  # relpath -> job path
+        self.begun = {}  # submitted in aborted runs since the last completed one
+        self.this_run = {}
+
+    def on_run_start(self, eng, pr, run_index):
+        self.this_run = {}
+
+    @staticmethod
+    def links(d):
+        res = {}
+        if d.is_dir():
+            for p in d.glob("*/*"):
+                if p.is_symlink():
+                    import os
+
+                    res[str(p.relative_to(d))] = os.readlink(p)
+        return res
+
+    def on_quiescent(self, eng, pr):
+        for a in pr.actions_log:
+            if a["kind"] != "dup" and "relpath" in a:
+                self.this_run[a["relpath"]] = a["jobpath"]
+
+    def on_run_end(self, eng, pr, rr):
+        self.on_quiescent(eng, pr)
+        xpdir = pr.workdir / "ws" / "xp" / pr.plan["runs"][rr["index"]].get("name", "xp")
+        jobs = self.links(xpdir / "jobs")
+        bak = self.links(xpdir / "jobs.bak")
+        rr["index_jobs"] = len(jobs)
+        rr["index_bak"] = len(bak)
+        if rr.get("inconclusive"):
+            return
+        if rr.get("left") == "normal":
+            if jobs != self.this_run:
+                extra = sorted(set(jobs) - set(self.this_run))
+                missing = sorted(set(self.this_run) - set(jobs))
+                wrong = sorted(k for k in jobs if k in self.this_run and jobs[k] != self.this_run[k])
+                V(eng, ["C16"], "index-differs-from-plan", f"run {rr['index']} ended normally: index has extra {extra[:3]}, misses {missing[:3]}, wrong targets {wrong[:3]}")
+            if (xpdir / "jobs.bak").exists():
+                V(eng, ["C16"], "backup-index-remains", f"run {rr['index']} ended normally but jobs.bak still exists ({len(bak)} links)")
+            self.last_completed = dict(self.this_run)
+            self.begun = {}
+        else:
+            self.begun.update(self.this_run)
+            protected = dict(self.last_completed)
+            protected.update(self.begun)
+            both = dict(bak)
+            both.update(jobs)
+            lost = sorted(k for k in protected if k not in both)
+            if lost:
+                V(eng, ["C16"], "protected-job-unindexed", f"run {rr['index']} was aborted: jobs {lost[:3]} (last completed plan or begun by an aborted run) are in neither jobs nor jobs.bak")
+            wrong = sorted(k for k in protected if k in both and both[k] != protected[k])
+            if wrong:
+                V(eng, ["C16"], "index-link-wrong-target", f"links {wrong[:3]} do not point to their job directory")
+        rr["protected"] = sorted(set(self.last_completed) | set(self.begun))
+        if self.plan.get("check_orphans"):
+            self.check_orphans(eng, pr, rr)
+
+    def check_orphans(self, eng, pr, rr):
+        """The real 'orphans' command must not report a protected job."""
+        from click.testing import CliRunner
+        from experimaestro.cli import cli
+
+        ws = pr.workdir / "ws"
+        res = CliRunner().invoke(cli, ["orphans", str(ws)])
+        if res.exception is not None and not isinstance(res.exception, SystemExit):
+            V(eng, ["C16"], "orphans-command-raises", f"{res.exception!r}")
+            return
+        listed = {l.strip() for l in res.output.splitlines()}
+        rr["orphans_listed"] = len([l for l in listed if "/" in l])
+        for rel in rr["protected"]:
+            if rel in listed and (ws / "jobs" / rel).is_dir():
+                V(eng, ["C16"], "protected-job-reported-orphan", f"after run {rr['index']} ({rr.get('left')}): {rel} is reported as orphan")
